@@ -191,18 +191,23 @@ def gen_efc(rng, ns):
     return ns["EvaluatedFormatConstraint"](format_constraint_fulfilled=rng.random() < 0.5, error_message=rtext(rng))
 
 
+def kspell(rng, n):
+    """a condition key as ahbicht itself produces it from an expression: the digits as written, which may have leading zeros ([007] and [7] are two keys)"""
+    return ("0" * rng.choice((1, 1, 2)) if rng.random() < 0.2 else "") + str(n)
+
+
 def gen_cer(rng, ns):
     V = ns["ConditionFulfilledValue"]
-    hints = {str(rng.choice((501, 502, 555, 600, 899))): rtext(rng) for _ in range(rng.choice((0, 0, 1, 2, 3)))}
-    fcs = {str(rng.choice((901, 902, 950, 999))): gen_efc(rng, ns) for _ in range(rng.choice((0, 0, 1, 2)))}
-    rcs = {str(rng.choice((1, 2, 3, 45, 499, 2001))): rng.choice(list(V)) for _ in range(rng.choice((0, 1, 2, 4)))}
+    hints = {kspell(rng, rng.choice((501, 502, 555, 600, 899))): rtext(rng) for _ in range(rng.choice((0, 0, 1, 2, 3)))}
+    fcs = {kspell(rng, rng.choice((901, 902, 950, 999))): gen_efc(rng, ns) for _ in range(rng.choice((0, 0, 1, 2)))}
+    rcs = {kspell(rng, rng.choice((1, 2, 3, 45, 499, 2001))): rng.choice(list(V)) for _ in range(rng.choice((0, 1, 2, 4)))}
     pk = rng.choice((None, None, {}, {}, {"123P": "[1] U ([2] O [3])"}, {"1P": "[901]", "22P": rng.choice(NONASCII)}))
     ident = rng.choice((None, None, uuid.UUID(int=rng.getrandbits(128)), uuid.UUID(int=0)))
     return ns["ContentEvaluationResult"](hints=hints, format_constraints=fcs, requirement_constraints=rcs, packages=pk, id=ident)
 
 
 def gen_cke(rng, ns):
-    ks = lambda pool: [str(rng.choice(pool)) for _ in range(rng.choice((0, 0, 1, 2, 3)))]
+    ks = lambda pool: [kspell(rng, rng.choice(pool)) for _ in range(rng.choice((0, 0, 1, 2, 3)))]
     return ns["CategorizedKeyExtract"](
         hint_keys=ks((501, 502, 600)), format_constraint_keys=ks((901, 902, 950)), requirement_constraint_keys=ks((1, 2, 3, 2001)),
         package_keys=[f"{rng.choice((1, 12, 123))}P" for _ in range(rng.choice((0, 0, 1, 2)))],
@@ -247,6 +252,8 @@ def witnesses(ns):
         E(format_constraint_fulfilled=True, error_message=None), E(format_constraint_fulfilled=False, error_message="m"),
         C(hints={}, format_constraints={}, requirement_constraints={}, packages=None, id=None),
         C(hints={}, format_constraints={}, requirement_constraints={}, packages={}, id=uuid.UUID(int=1)),
+        C(hints={"0501": "h"}, format_constraints={"0950": E(format_constraint_fulfilled=False, error_message="m")},
+          requirement_constraints={"7": V.FULFILLED, "007": V.UNFULFILLED, "10": V.UNKNOWN, "9": V.FULFILLED}, packages=None, id=None),
         C(hints={"501": None, "502": "äöü"}, format_constraints={"901": E(format_constraint_fulfilled=True, error_message=None)},
           requirement_constraints={"1": V.FULFILLED, "2": V.UNFULFILLED, "3": V.UNKNOWN, "4": V.NEUTRAL}, packages={"123P": "[1] U [2]"}, id=None),
         K(hint_keys=[], format_constraint_keys=[], requirement_constraint_keys=[], package_keys=[], time_condition_keys=[]),
@@ -279,7 +286,7 @@ def produced_by_ahbicht(ctx, ns):
             r = outcome(lambda: asyncio.run(evaluate_ahb_expression_tree(asyncio.run(resolve(e)))))
             if r[0] == "ok":
                 out += [r[1], r[1].requirement_constraint_evaluation_result, r[1].format_constraint_evaluation_result]
-    for e in ["[1] U [2]", "[1] U ([501] O [902])[901]", "[2001] X [3][950] U [555]", "[12P] U [1] O [UB1]", "[1]"]:
+    for e in ["[1] U [2]", "[1] U ([501] O [902])[901]", "[2001] X [3][950] U [555]", "[12P] U [1] O [UB1]", "[1]", "[007] U [8]", "[7] O [007]", "[12][0501]"]:
         r = outcome(lambda: asyncio.run(extract_categorized_keys(e)))
         if r[0] == "ok":
             out.append(r[1])
